@@ -84,6 +84,21 @@ def cases(rng, tier):
                 yield ("vuspec %s %d %d" % (hexs(bs), L, off), "vu-alpha%d-spec" % L)
             else:
                 yield from vu(bs, "vu-alpha%d" % L)
+    # --- varuints inside long buffers: the decoder's bookkeeping (bytes left, bit budget) at distances from the end
+    # of the buffer around multiples of 256 and 65536, and at large offsets
+    for rep in range(4000 if thorough else 400):
+        base = rng.choice([256, 256, 512, 768, 1024, 4096, 65536])
+        dist = base + rng.choice([-2, -1, 0, 0, 1, 2, 3, 4, 5, 6]) if rng.random() < 0.8 else rng.randint(200, 70000)
+        lead = rng.choice([0, 1, 5, rng.randint(0, 300)])
+        L = lead + dist
+        bs = [rng.choice(ALPHA) if rng.random() < 0.5 else rng.randrange(256) for _ in range(L)]
+        # a well-formed varuint of 1..6 bytes at the probed offset (continuation bytes then a terminator)
+        k = rng.choice([1, 1, 2, 3, 4, 5, 6])
+        for j in range(k):
+            if lead + j < L:
+                bs[lead + j] = (rng.randrange(128) | 0x80) if j < k - 1 else rng.randrange(128)
+        yield ("vu %s %d %d" % (hexs(bs), L, lead), "vu-long")
+        yield ("vuspec %s %d %d" % (hexs(bs), L, lead), "vu-long-spec")
     # --- RGB565
     for c in range(65536):
         yield ("rgbdec %d" % c, "rgbdec")
